@@ -205,6 +205,8 @@ struct Printed {
     word: String,
     /// the cursor word as bytes (differs from `word` only for words that are not UTF-8)
     word_bytes: Vec<u8>,
+    /// number of tokens in front of the `before` list (binary name, path words, positional values)
+    lead: usize,
 }
 
 fn resolve_level<'a>(spec: &'a CmdSpec, path: &[(u8, u8)]) -> (Vec<&'a CmdSpec>, Vec<String>) {
@@ -258,8 +260,9 @@ fn print_intent(spec: &CmdSpec, il: &IntentLine) -> Option<Printed> {
     let globals = globals_of(&chain);
     let ents = level_entities(level, &globals);
     let named: Vec<&ArgSpec> = level.args.iter().chain(globals.iter().copied()).filter(|a| !a.is_positional()).collect();
-    let mut args: Vec<OsString> = vec![OsString::from("prog")];
+    let mut args: Vec<OsString> = if spec.has(CmdSetting::NoBinaryName) { vec![] } else { vec![OsString::from("prog")] };
     args.extend(words.drain(..).map(OsString::from));
+    let lead = args.len();
     // completed tokens before the cursor: value-less flags, or options with an attached value
     for b in &il.before {
         if named.is_empty() {
@@ -332,7 +335,7 @@ fn print_intent(spec: &CmdSpec, il: &IntentLine) -> Option<Printed> {
             bytes.push(0xff);
             let index = args.len();
             args.push(B(bytes.clone()).os());
-            return Some(Printed { args, index, level_path: Vec::new(), word: String::from_utf8_lossy(&bytes).to_string(), word_bytes: bytes });
+            return Some(Printed { args, index, level_path: Vec::new(), word: String::from_utf8_lossy(&bytes).to_string(), word_bytes: bytes, lead });
         }
         Word::SubPrefix(pick, cut) => {
             let names: Vec<&String> = ents.iter().filter(|e| e.id.starts_with("command::")).flat_map(|e| e.visible.iter()).collect();
@@ -352,7 +355,7 @@ fn print_intent(spec: &CmdSpec, il: &IntentLine) -> Option<Printed> {
     args.push(OsString::from(&word));
     let level_path = Vec::new();
     let word_bytes = word.clone().into_bytes();
-    Some(Printed { args, index, level_path, word, word_bytes })
+    Some(Printed { args, index, level_path, word, word_bytes, lead })
 }
 
 fn short_flag_before(p: &Printed, chain_len: usize) -> bool {
@@ -548,7 +551,8 @@ impl Engine for CompSim {
         cfg.text = TextKind::Plain;
         cfg.allow_multicall = false;
         cfg.allow_defer = false;
-        cfg.allow_no_binary_name = false;
+        // (a command without a binary name has a real argument at index 0)
+        cfg.allow_no_binary_name = true;
         cfg.allow_ignore_errors = false;
         cfg.value_hints = true;
         cfg.allow_flag_subs = false;
@@ -573,7 +577,7 @@ impl Engine for CompSim {
                 }
             }
             if c.has(CmdSetting::AllowExternalSubcommands) && rng.chance(1, 2) {
-                c.ext_candidates = 1 + rng.below(4) as u8;
+                c.ext_candidates = 1 + rng.below(5) as u8;
             }
             for s in c.subs.iter_mut() {
                 deco(rng, s, with_fs);
@@ -996,6 +1000,17 @@ fn check_intent(sc: &CompSc, line: &Line, p: &Printed, list: &[CompletionCandida
     let globals = globals_of(&chain);
     let ents = level_entities(level, &globals);
     let word = p.word.as_str();
+    // external subcommand names offered by the application's SubcommandCandidates provider are subcommand
+    // candidates too: they must extend the word (the provider of this workload returns a fixed list and does
+    // not look at the word; argument completers, which do get the word, are kept out of this rule)
+    if level.has(CmdSetting::AllowExternalSubcommands) && level.ext_candidates != 0 && !level.args.iter().chain(globals.iter().copied()).any(|a| a.completer != 0) {
+        let provided: Vec<std::ffi::OsString> = candidate_list(level.ext_candidates).iter().map(|c| c.get_value().to_os_string()).collect();
+        for c in list.iter().filter(|c| c.get_id().is_none()) {
+            if provided.iter().any(|v| v == c.get_value()) && !c.get_value().as_bytes().starts_with(&p.word_bytes) {
+                return Some(("candidate-does-not-extend-word", "external-subcommand".into(), format!("external subcommand candidate {:?} does not extend the word", c.get_value())));
+            }
+        }
+    }
     // (1)-(3) every option/subcommand candidate
     for c in list {
         let Some(id) = c.get_id() else { continue };
@@ -1034,11 +1049,11 @@ fn check_intent(sc: &CompSc, line: &Line, p: &Printed, list: &[CompletionCandida
             if matches!(kind, ErrorKind::UnknownArgument | ErrorKind::InvalidSubcommand) {
                 // an error about an EARLIER token is not about the candidate
                 let first = rendered.lines().next().unwrap_or("");
-                if first.contains(&format!("'{v}'")) && id.starts_with("command::") && level.has(CmdSetting::ArgsConflictsWithSubcommands) && p.args.len() > chain.len() + 1 {
+                if first.contains(&format!("'{v}'")) && id.starts_with("command::") && level.has(CmdSetting::ArgsConflictsWithSubcommands) && p.args.len() > p.lead + 1 {
                     // listed finding: the engine does not model args_conflicts_with_subcommands
                     return Some(("candidate-rejected-by-parser", "subcommand-after-args-with-args-conflicts-with-subcommands".into(), format!("the parser answers {kind:?} for {:?}", argv)));
                 }
-                if first.contains(&format!("'{v}'")) && id.starts_with("arg::") && level.has(CmdSetting::AllowMissingPositional) && short_flag_before(p, chain.len()) {
+                if first.contains(&format!("'{v}'")) && id.starts_with("arg::") && level.has(CmdSetting::AllowMissingPositional) && short_flag_before(p, p.lead) {
                     // listed finding (a parser defect, visible through this clause): with allow_missing_positional a
                     // known flag is rejected when it follows a short option with an attached value (`-tval --flag`)
                     return Some(("candidate-rejected-by-parser", "allow-missing-positional-after-attached-short-value".into(), format!("the parser answers {kind:?} for {:?}", argv)));
@@ -1074,7 +1089,7 @@ fn check_intent(sc: &CompSc, line: &Line, p: &Printed, list: &[CompletionCandida
             continue;
         }
         let _ = e.takes_value;
-        if matching_visible && !represented && short_flag_before_hyphen_positional(level, p, chain.len()) {
+        if matching_visible && !represented && short_flag_before_hyphen_positional(level, p, p.lead) {
             // listed finding: the engine hands a KNOWN value-less short flag to a positional that allows
             // hyphen values and then completes as if inside that positional
             return Some(("visible-not-represented", "known-short-flag-consumed-by-hyphen-positional".into(), format!("{} is not offered after a known short flag because a positional of `{}` allows hyphen values", e.id, level.name)));
